@@ -547,3 +547,32 @@ def r_chunkinit(db, rep):
                         rep.viol("%s#chunk-%s" % (f.qn, k), f.nloc(n),
                                  "%s starts its ChunkScan with %s = %s where every sibling starts with %d: the chunk decoder's end-of-string / "
                                  "carry-over logic is out of step from the first chunk on" % (f.qn, k, got, want), f.qn)
+    # header scans of the Hu-Tucker kinds and their iterators are bounded by the longest *compressed* header (maxcomplength),
+    # not by the longest plain string: a header made of rare bytes is longer compressed than any plain string
+    for f in sorted(db.funcs.values(), key=lambda x: (x.file, x.line)):
+        if not f.body or not f.rec or db.field(f.rec, "maxcomplength") is None or f.name != "decodeHeader":
+            continue
+        stores = []
+        for lv, w in written_lvalues(f):
+            sx = strip(lv)
+            if sx["k"] == "MemberExpr" and sx.get("rec") == "ChunkScan" and sx.get("n") == "b_remain" and w.get("op") == "=" and w.get("rhs") is not None:
+                stores.append((w["rhs"], w))
+        for n in f.live_nodes():
+            if n["k"] == "InitListExpr" and "b_remain" in (n.get("fields") or []):
+                i = n["fields"].index("b_remain")
+                if i < len(n.get("inits") or []) and n["inits"][i] is not None:
+                    stores.append((n["inits"][i], n))
+        for rhs, w in stores:
+            if strip(rhs)["k"] not in ("MemberExpr", "DeclRefExpr"):
+                continue            # computed from the bucket pointers: a different (exact) bound
+            p = resolved_path(f, rhs)
+            if p is None or p[0] != "this" or len(p) != 2:
+                continue
+            rep.visit(f)
+            rep.inst(f.nloc(w), "%s bounds a header scan by %s" % (f.qn, p[1]))
+            rep.ob()
+            if p[1] != "maxcomplength":
+                rep.viol("%s#header-bound-%s" % (f.qn, p[1]), f.nloc(w),
+                         "%s bounds the scan of a compressed bucket header by %s; its siblings use maxcomplength (the longest compressed "
+                         "header): a header longer than that bound is cut and the rest is decoded from zero bits" % (f.qn, p[1]), f.qn)
+
